@@ -1,0 +1,41 @@
+//go:build verif
+
+package ice
+
+import (
+	"io"
+
+	"github.com/RoaringBitmap/roaring"
+	segment "github.com/blugelabs/bluge_segment_api"
+)
+
+// This file is only compiled with the build tag "verif". It exports the
+// chunk-mode-parameterised builder and merger so that verification
+// machinery outside the package can exercise fixed chunk sizes on small
+// batches. It adds no behaviour.
+
+// VerifNew builds a segment with an explicit chunk mode.
+func VerifNew(results []segment.Document, normCalc func(string, int) float32,
+	chunkMode uint32) (segment.Segment, uint64, error) {
+	return newWithChunkMode(results, normCalc, chunkMode)
+}
+
+// VerifMerge merges ice segments into w with an explicit chunk mode.
+func VerifMerge(segments []segment.Segment, drops []*roaring.Bitmap, w io.Writer,
+	chunkMode uint32, closeCh chan struct{}) ([][]uint64, uint64, error) {
+	segmentBases := make([]*Segment, len(segments))
+	for i, seg := range segments {
+		segmentBases[i] = seg.(*Segment)
+	}
+	return mergeSegmentBasesWriter(segmentBases, drops, w, chunkMode, closeCh)
+}
+
+// VerifPoolHoldsUsed reports whether the builder pool currently hands out an
+// interim that has been used before (its scratch slices have capacity). The
+// object is put back untouched.
+func VerifPoolHoldsUsed() bool {
+	s := interimPool.Get().(*interim)
+	used := cap(s.Postings) > 0 || cap(s.DictKeys) > 0 || cap(s.tmp0) > 0 || s.builder != nil
+	interimPool.Put(s)
+	return used
+}
